@@ -120,6 +120,13 @@ func (it *Item[T]) Remove() bool {
 			next.next = it.next
 			return true
 		}
+		if next.next == it {
+			// unlink the item from the one above it.
+			next.next = it.next
+			it.stack.length--
+			it.stack = nil
+			return true
+		}
 		if next.next == nil {
 			break
 		}
